@@ -157,7 +157,7 @@ func (e *c17Env) restoreCb(f []string) string {
 	if !ok {
 		return "bad-op"
 	}
-	data, err := os.ReadFile(e.slot(f[1])) // the slot as it is when the restore is entered
+	data, err := os.ReadFile(e.slotFile(f[1])) // the slot as it is when the restore is entered
 	if err != nil {
 		return "nofile"
 	}
@@ -242,27 +242,29 @@ func (e *c17Env) inTx(f []string) string {
 	at := e.dump()
 	switch {
 	case f[0] == "snaptc" && len(f) == 4:
-		var id string
+		var id, actual string
 		err := e.db.View(func(tx *bbolt.Tx) error {
 			pre = e.ro(f[2])
 			var err error
-			_, id, err = e.db.SnapshotInTx(tx, e.slot(f[1]))
+			actual, id, err = e.db.SnapshotInTx(tx, e.slot(f[1]))
 			post = e.ro(f[3])
 			return err
 		})
+		e.setSlot(f[1], actual, err)
 		main = e.snapped(id, err, at)
 	case f[0] == "snapuc" && len(f) == 5:
-		var id string
+		var id, actual string
 		err := e.db.Update(nil, func(ctx boltz.MutateContext) error {
 			if err := c17Writes(ctx.Tx(), f[2]); err != nil {
 				return err
 			}
 			pre = e.ro(f[3])
 			var err error
-			_, id, err = e.db.SnapshotInTx(ctx.Tx(), e.slot(f[1]))
+			actual, id, err = e.db.SnapshotInTx(ctx.Tx(), e.slot(f[1]))
 			post = e.ro(f[4])
 			return err
 		})
+		e.setSlot(f[1], actual, err)
 		main = e.snapped(id, err, at)
 	case f[0] == "streamc" && len(f) == 4:
 		file, err := os.Create(e.slot(f[1]))
@@ -279,6 +281,7 @@ func (e *c17Env) inTx(f []string) string {
 		if err != nil {
 			main = "err"
 		} else {
+			e.setSlot(f[1], e.slot(f[1]), nil)
 			main = "streamed:" + at
 		}
 	default:
